@@ -7,6 +7,7 @@ import (
 	"go/token"
 	"go/types"
 	"regexp/syntax"
+	"sort"
 	"strconv"
 	"strings"
 
@@ -2093,4 +2094,102 @@ func onlyFrom(v ssa.Value, pred func(ssa.Value) bool) bool {
 	}
 	walk(v, 0)
 	return n > 0 && !bad
+}
+
+// retryLaterSurvivesAdapters (C15): lfshttp's handleResponse turns "429 + Retry-After" into a retriable-later
+// error, and wrapping that in errors.NewRetriableError hides it from the queue (IsRetriableLaterError does not look
+// through the wrapper), which then repeats the attempt on the ordinary back-off. So, in every function a transfer
+// adapter's DoTransfer can reach, an error that comes out of an HTTP exchange is passed to errors.NewRetriableError
+// only on paths where the retry-later case is excluded: no response at all, status other than 429, the
+// retry-later constructor returned nil (no usable Retry-After), or IsRetriableLaterError said no.
+func retryLaterSurvivesAdapters(c *Ctx, rule string) {
+	p := c.P
+	hr := p.Fn("lfshttp", "(*Client).handleResponse")
+	if hr == nil {
+		c.Missing(rule, "(*lfshttp.Client).handleResponse", "not found")
+		return
+	}
+	var roots []*ssa.Function
+	for _, fn := range p.RepoFuncs(func(path string) bool { return strings.HasSuffix(path, "/tq") }) {
+		if fn.Name() == "DoTransfer" && fn.Signature.Recv() != nil {
+			roots = append(roots, fn)
+		}
+	}
+	reach := staticReach(p, roots...)
+	httpMemo := map[*ssa.Function]bool{}
+	isHTTP := func(fn *ssa.Function) bool {
+		if fn == nil {
+			return false
+		}
+		if v, ok := httpMemo[fn]; ok {
+			return v
+		}
+		v := staticReach(p, fn)[hr]
+		httpMemo[fn] = v
+		return v
+	}
+	fromHTTP := func(e ssa.Value) bool {
+		for _, l := range append(p.LeavesUp(e, nil), e) {
+			if cc, _, ok := CallResult(l); ok && isErrorType(l.Type()) {
+				if isHTTP(cc.Call.StaticCallee()) {
+					return true
+				}
+			}
+		}
+		return false
+	}
+	n := 0
+	var fns []*ssa.Function
+	for fn := range reach {
+		if fn.Pkg != nil && strings.HasSuffix(fn.Pkg.Pkg.Path(), "/tq") {
+			fns = append(fns, fn)
+		}
+	}
+	sort.Slice(fns, func(i, j int) bool { return FnName(fns[i]) < FnName(fns[j]) })
+	for _, fn := range fns {
+		sites := CallsIn(fn, "errors.NewRetriableError")
+		if len(sites) == 0 {
+			continue
+		}
+		pass := PassEdges(fn, func(cond ssa.Value) (bool, bool) {
+			if op, x, y, ok := BinCmp(cond); ok {
+				// res == nil
+				if (op == token.EQL || op == token.NEQ) && (IsNilConst(y) || IsNilConst(x)) {
+					o := x
+					if IsNilConst(x) {
+						o = y
+					}
+					if short(o.Type().String()) == "*net/http.Response" {
+						return op == token.EQL, true
+					}
+					if cc, _, isRes := CallResult(o); isRes && CalleeName(cc.Common()) == "errors.NewRetriableLaterError" {
+						return op == token.EQL, true
+					}
+				}
+				// res.StatusCode == 429
+				if k, isK := ConstInt(y); isK && k == 429 && (op == token.EQL || op == token.NEQ) {
+					if _, f, _, isF := FieldOf(x); isF && f == "StatusCode" {
+						return op == token.NEQ, true
+					}
+				}
+			}
+			if ex, ok := cond.(*ssa.Extract); ok && ex.Index == 1 {
+				if cc, ok := ex.Tuple.(*ssa.Call); ok && CalleeName(cc.Common()) == "errors.IsRetriableLaterError" {
+					return false, true
+				}
+			}
+			return false, false
+		})
+		for i, ci := range sites {
+			e := ci.Common().Args[0]
+			if !fromHTTP(e) {
+				continue
+			}
+			n++
+			ok, where := Guarded(fn.Blocks[0], ci, pass, noReturnCommands)
+			c.Check(ok, rule, "retry-later-survives:"+FnName(fn)+"#"+itoa(i), p.InstrPos(ci), "the error of an HTTP exchange is made plainly retriable only where it cannot be a retry-later error",
+				"the error of an HTTP exchange is wrapped as plainly retriable without excluding the 429/Retry-After case ("+where+"): the queue repeats the transfer on its ordinary back-off, before the time the server indicated")
+		}
+	}
+	c.AtLeast(rule, "plain-retriable wraps of HTTP errors in adapters", n, 4)
 }
